@@ -219,6 +219,7 @@ func (w *wal) read() (WALBatch, error) {
 // truncate cuts off an incomplete record at the end of the log, so that it is
 // neither replayed nor buried under records appended later.
 func (w *wal) truncate(size int64) error {
+	verifWalTruncate(w.reader, size)
 	if f, ok := w.reader.(interface{ Truncate(size int64) error }); ok {
 		return f.Truncate(size)
 	}
